@@ -31,6 +31,7 @@ type Config struct {
 	PoolPoints bool
 	DelayBound bool
 	SelectFree bool
+	LazyTime   bool
 	NoPrune    bool
 	Deadline   time.Time // wall-clock cap; zero = none
 	MaxExec    int64     // execution cap; 0 = none
@@ -81,6 +82,7 @@ type budget struct{ s, f int }
 
 type explorer struct {
 	leftAfter budget // budget left after the prefix of the execution being started
+	sigs      map[string]int
 	cfg   Config
 	res   *Result
 	seen  map[uint64][]budget
@@ -113,7 +115,7 @@ func runOne(cfg Config, prefix []int, trace bool, cut func(p *vrt.Point) bool) *
 	diverged := ""
 	x := vrt.Run(cfg.Root, vrt.Options{
 		Horizon: cfg.Horizon, MaxSteps: cfg.MaxSteps, PoolPoints: cfg.PoolPoints,
-		DelayBound: cfg.DelayBound, SelectFree: cfg.SelectFree, Trace: trace,
+		DelayBound: cfg.DelayBound, SelectFree: cfg.SelectFree, Trace: trace, LazyTime: cfg.LazyTime,
 		Chooser: func(i int, p *vrt.Point) int {
 			if i < len(prefix) {
 				if prefix[i] >= len(p.Alts) && diverged == "" {
@@ -244,7 +246,16 @@ func (e *explorer) explore(prefix []int, depth int) {
 	}
 	if (x.Outcome != vrt.OutcomeOK && x.Outcome != vrt.OutcomeAborted) || len(x.Failures) > 0 {
 		s, f := spent(x, len(x.Points))
-		if len(e.res.Violations) < 20 {
+		sig := x.Outcome.String() + "|" + strings.Join(x.Failures, "|")
+		if x.Outcome != vrt.OutcomeOK && len(x.Failures) == 0 {
+			sig += strings.SplitN(x.Detail, "\n", 2)[0]
+		}
+		if e.sigs == nil {
+			e.sigs = map[string]int{}
+		}
+		e.sigs[sig]++
+		// keep the first (fewest-deviation) executions of every distinct failure signature
+		if e.sigs[sig] <= 2 && len(e.res.Violations) < 60 {
 			e.res.Violations = append(e.res.Violations, Violation{Choices: trim(choices), Outcome: x.Outcome.String(),
 				Detail: x.Detail, Failures: x.Failures, Log: x.Log, Sched: s, Fault: f})
 		}
